@@ -143,7 +143,8 @@ ms == V("$max_0_select_1")
 z == V("z")
 DomsE == { <<Decl("x", "real", MInf, PInf), Decl("y", "real", Fin(-1, 1), Fin(1, 1)),
              Decl("$abs_0", "real", Fin(-1, 1), Fin(1, 1)), Decl("$max_0_select_1", "bool", Fin(0, 1), Fin(1, 1)),
-             Decl("u", "int", Fin(0, 1), Fin(3, 1)), Decl("z", "nnreal", Fin(0, 1), PInf)>> }
+             Decl("u", "int", Fin(0, 1), Fin(3, 1)), Decl("z", "nnreal", Fin(0, 1), PInf),
+             Decl("w", "real", MInf, Fin(2, 1))>> }
 ConsE == {NamedCon("a", Con(U("abs", y), "ge", Num(1, 2))),
           NamedCon("a", Con(B("add", y, ax), "le", Num(1, 1))),
           NamedCon("a__2", Con(y, "ge", Num(-1, 2))),
@@ -160,7 +161,11 @@ ConsE == {NamedCon("a", Con(U("abs", y), "ge", Num(1, 2))),
           Con(B("mul", Num(0, 1), x), "le", InfP),
           NamedCon("c", Con(B("mul", Num(0, 1), B("add", x, z)), "le", Num(1, 1))),
           Con(N2("max", U("abs", y), InfM), "ge", Num(1, 2)),
-          Con(U("abs", N2("min", x, Num(3, 1))), "le", Num(2, 1))}
+          Con(U("abs", N2("min", x, Num(3, 1))), "le", Num(2, 1)),
+          \* exact lowerings over half-bounded operands: the aggregate range is finite, one operand side is not
+          Con(N2("max", V("w"), Num(0, 1)), "ge", Num(1, 1)),
+          Con(N2("min", z, Num(1, 1)), "le", Num(1, 2)),
+          Con(B("sub", Num(0, 1), N2("max", V("w"), y)), "le", Num(0, 1))}
 ---------------------------------------------------------------------------
 Doms == CASE Family = "A" -> DomsA [] Family = "B" -> DomsB [] Family = "C" -> DomsC [] Family = "D" -> DomsD [] Family = "E" -> DomsE [] Family = "F" -> DomsF
 Cons == CASE Family = "A" -> ConsA [] Family = "B" -> ConsB [] Family = "C" -> ConsC [] Family = "D" -> ConsD [] Family = "E" -> ConsE [] Family = "F" -> ConsF
